@@ -10,7 +10,7 @@ from __future__ import annotations
 from typing import Any, Dict, List, Optional
 
 from . import core
-from .absint import CellV, ExcV, Interp, ListV, OriginV, Unknown, Budget, _Unmodelled
+from .absint import opaque_path, CellV, ExcV, Interp, ListV, OriginV, Unknown, Budget, _Unmodelled
 from .codec import (SER, INFO, Consts, Encoded, OriginModel, describe_path, encode_generic,
                     fit_affine, generic_cell, same_or_refuted, sym_in, valid_s_count)
 from .lin import Lin, Sym, occupancy
@@ -115,8 +115,8 @@ def analyse_resolution(ctx, interp: Interp, om: OriginModel, consts: Consts, r: 
     vals = []
     for o in outs:
         if o.kind == "raise":
-            ctx.bad("C05.5", f"{Q}.get_resolution on ids of resolution {r}: raises {_exc_text(o.value)}", core.loc(SER, o.node),
-                    f"path [{describe_path(o.state)}]")
+            ctx.ob("C05.5", f"{Q}.get_resolution on ids of resolution {r}: raises {_exc_text(o.value)}",
+                   core.UNDECIDED if opaque_path(o.state) else core.VIOLATED, core.loc(SER, o.node), f"path [{describe_path(o.state)}]")
         else:
             vals.append(o)
     if len(vals) == 1 and isinstance(vals[0].value, Lin) and vals[0].value.is_const() and not vals[0].state.path:
@@ -147,8 +147,8 @@ def analyse_resolution(ctx, interp: Interp, om: OriginModel, consts: Consts, r: 
     cells = [o for o in outs if o.kind == "return"]
     for o in outs:
         if o.kind == "raise":
-            ctx.bad("C05.6", f"{Q}.deserialize on ids of resolution {r}: raises {_exc_text(o.value)}", core.loc(SER, o.node),
-                    f"path [{describe_path(o.state)}]")
+            ctx.ob("C05.6", f"{Q}.deserialize on ids of resolution {r}: raises {_exc_text(o.value)}",
+                   core.UNDECIDED if opaque_path(o.state) else core.VIOLATED, core.loc(SER, o.node), f"path [{describe_path(o.state)}]")
     if len(cells) == 1 and isinstance(cells[0].value, CellV) and not cells[0].state.path:
         c: CellV = cells[0].value
         o_sym = Lin.of(sym_in(v, "o")) if sym_in(v, "o") is not None else None
